@@ -590,6 +590,8 @@ def variants():
     md = "tempest/modes.py"
     core = "tempest/core.py"
     return [
+        Variant("f-training-labels", "bad", replace_stmt(tr, "Trainer.run", "labels = self.clusterer.predict(u)", "labels = self.clusterer.labels_"), ["C14.f"], quick=True),
+        Variant("f-predict-other-rows", "bad", replace_stmt(tr, "Trainer.run", "labels = self.clusterer.predict(u)", "labels = self.clusterer.predict(self.state.get_history('u', flat=True))[trim_idx]"), ["C14.f"]),
         Variant("a-drop-never-fitted", "bad", replace_expr(tr, "Trainer.run", "iter_val % self.cluster_every == 0 or iter_val == 0 or never_fitted", "iter_val % self.cluster_every == 0 or iter_val == 0"), ["C14.a"], quick=True),
         Variant("a-predict-before-fit", "bad", _swap_fit_predict(tr), ["C14.a"]),
         Variant("c-no-cholesky", "bad", delete_stmt(md, "ModeStatistics.__init__", "self.chol_covariances = np.linalg.cholesky(self.covariances)"), ["C14.c"]),
